@@ -14,7 +14,7 @@ Three parts (see DESIGN.md §5 C04):
     the handlers is recorded, checked (bound >= true where true > 0, for the 1/r bound) and the accept decision
     re-derived with the model.
 """
-import ast, copy, json, math, os, subprocess, sys, time
+import ast, json, math, os, subprocess, time
 from fractions import Fraction as Fr
 from harness.drive import f2b, b2f
 
@@ -33,6 +33,7 @@ ASSUMPTIONS = [
     "state branches have depth <= 2 (root node, leaf children), as in every shipped configuration",
 ]
 TRUSTED = ["Lean native Float (+ - * / and comparisons are IEEE-754 binary64; Float.pow is libm pow, as in the C routine)",
+           "Lean kernel's evaluation of Float literals/comparisons in the three binary64 boundary examples (decide +kernel)",
            "unittest.mock stand-ins for Potential / Lifting / PeriodicCells (as /repo/unittests/test_event_handler)",
            "fractions.Fraction arithmetic for the oracle"]
 
@@ -1010,6 +1011,30 @@ def runs_collect(ctx, procs):
     ctx.extra["run_events"] = len(lines)
 
 
+def replay(ctx, case):
+    """re-evaluate a recorded failing input on the current tree (./check C04 --replay FILE)"""
+    c = case.get("case", {})
+    sig = case.get("signature", "")
+    if sig.startswith("domination:"):
+        import jellyfysh.setting as setting
+        try:
+            P = Pots(float(c["L"]))
+            s = [float.fromhex(x) for x in c["separation"]]
+            q, b = P.rates(int(c["direction"]), s, c["c1"], c["c2"], c.get("speed", 1.0))
+        finally:
+            setting.reset()
+        return {"signature": sig, "true_rate": q, "bounding_rate": b, "ratio": (q / b if b else None),
+                "prefactor": P.k, "still_failing": bool(q > FLOOR / (P.L * P.L) and not (b >= q and b > 0))}
+    if "request" in c:
+        return {"signature": sig, "model_reply": ctx.model("thin", [c["request"]])[0][:2000],
+                "note": "the request line encodes the time-sliced in-state, the values returned by the mocked potentials, "
+                        "the draw and the lifting answer; see harness/props/c04.py: handler_cases for the implementation side"}
+    if "ini" in c:
+        return {"signature": sig, "note": "re-run: /venv/bin/python harness/c04_run.py <tree> %s %s %s and look at event n=%s"
+                                          % (c["ini"], c["end_of_run_time"], c["seed"], c["n"])}
+    return {"signature": sig, "note": "no replay recipe for this kind of case"}
+
+
 def run(ctx):
     ctx.rule = ("(1) handler cases: seeded generator over (handler kind 1..6, box length, branch shape, charge/no charge, rate regime "
                 "q<0|q=0|0<q<b|q=b|q=b+-ulp|q>b|b=0|b<0|subnormal, draw class 0|thr|thr+-ulp|bound|inner|r-mode, lifting answer); "
@@ -1017,19 +1042,14 @@ def run(ctx):
                 "(corners/edges with s_x log-spaced to 1e-8 L, symmetry planes, grid, compass-search iterates), both charge signs, all 3 "
                 "directions, several L; distinct = (family, L, bucket). (3) run events of shipped configurations; distinct = (ini, handler, "
                 "accepted, true>0, uses 1/r bound)")
-    parts = ("kernel", "formula", "handlers", "runs", "domination")
     t0 = time.time()
-    procs = runs_start(ctx) if "runs" in parts else []      # subprocesses work in the background
+    procs = runs_start(ctx)      # the run subprocesses work in the background
     try:
-        if "kernel" in parts:
-            part_kernel(ctx)
-        if "formula" in parts:
-            part_bound_formula(ctx)
-        if "handlers" in parts:
-            part_handlers(ctx)
+        part_kernel(ctx)
+        part_bound_formula(ctx)
+        part_handlers(ctx)
         t1 = time.time()
-        if "domination" in parts:
-            part_domination(ctx)
+        part_domination(ctx)
         t2 = time.time()
         runs_collect(ctx, procs)
         procs = []
